@@ -47,6 +47,10 @@ PEnv(a, b) == a.type = b.type /\ a.rtype = b.rtype /\ a.q100 = b.q100 /\ SameDes
 EnvKept == Applies({"EnvKept"}) =>
               /\ \A c \in ConfsA : Matches(R.B[c], R.A[c], PEnv)          \* B = restricted run: its scored groups
               /\ R.presentA = R.presentB                                  \* all groups still exist (gid, type)
+(* ... and every residue still acts as hydrogen-bond partner: the same pairs of groups are joined by side-chain
+   determinants, whether or not the groups titrate (values may differ through the buried-pair exception rules).
+   scA / scB list the pairs scored non-iteratively; for iterative pairs the listing depends on computed pKa values *)
+PartnersKept == Applies({"EnvKept"}) => R.scA = R.scB
 (* hydrogens built in a moved frame are the moved hydrogens, up to coordinate rounding (C04 c, C17) *)
 HydNear(h, k) == h[1] = k[1] /\ Near(h[2], k[2], R.epsc) /\ Near(h[3], k[3], R.epsc) /\ Near(h[4], k[4], R.epsc)
 HydEquivariant == R.hashyd = 1 =>
